@@ -680,20 +680,22 @@ class Impl:
             escaped = None
         except Exception as e:     # KmipSession.run logs it and waits for the next request: the client gets nothing
             escaped = type(e).__name__
-        if escaped is not None or len(conn.sent) != 1:
-            return {'error': {'reason': 'NO_RESPONSE', 'message': 'NoResponse: %s escaped from the session, %d messages sent' % (escaped, len(conn.sent))},
-                    'items': []}, tap.size
+        received = b''.join(conn.sent)          # what the client receives: every sendall of the session, in order
+        if escaped is not None or not received:
+            return {'error': {'reason': 'NO_RESPONSE', 'message': 'NoResponse: %s escaped from the session, %d bytes sent' % (escaped, len(received))},
+                    'items': [], 'bytes': received or None}, tap.size
         resp = messages.ResponseMessage()
         try:
-            resp.read(kutils.BytearrayStream(conn.sent[0]), kmip_version=kv)
+            resp.read(kutils.BytearrayStream(received), kmip_version=kv)
         except Exception as e:        # the client cannot read what the server sent: nothing is reported to it
-            return {'error': {'reason': 'UNREADABLE', 'message': 'NoResponse: the response cannot be decoded (%s)' % type(e).__name__},
-                    'items': [], 'bytes': conn.sent[0]}, tap.size
+            return {'error': {'reason': 'UNREADABLE', 'message': 'NoResponse: the %d bytes the client received cannot be decoded (%s); the engine '
+                                                                  'encoded %s bytes' % (len(received), type(e).__name__, tap.size)},
+                    'items': [], 'bytes': received}, tap.size
         size = tap.size
         items = [kdrv.project_item(bi) for bi in resp.batch_items]
         if len(items) == 1 and items[0]['op'] is None and not kdrv.ok(items[0]):
-            return {'error': {'reason': items[0]['reason'], 'message': items[0]['message']}, 'items': [], 'bytes': conn.sent[0]}, size
-        return {'error': None, 'items': items, 'bytes': conn.sent[0]}, size
+            return {'error': {'reason': items[0]['reason'], 'message': items[0]['message']}, 'items': [], 'bytes': received}, size
+        return {'error': None, 'items': items, 'bytes': received}, size
 
     def close(self):
         self.eng.close()
@@ -1411,6 +1413,13 @@ def gen_wire(run, ctx):
     for r in fixed:
         for mx in [None, 0, 1, 64, 150, 300, 1048576]:
             run.wire([], r, mx, 'wire:fixed')
+    # large batches: answers of 4-20 KiB must reach the client whole - one result per executed item in the bytes it receives
+    big = [(60, None, 'CONTINUE'), (120, None, None), (75, 1048576, 'CONTINUE'), (90, 3000, 'CONTINUE')] + ([] if quick else [(200, None, None), (64, 20000, 'STOP')])
+    for n, mx, opt in big:
+        items = [I_create(names=[1000 + k]) if k % 7 else I_get(99) for k in range(n)] if opt == 'CONTINUE' else [I_create(names=[1000 + k]) for k in range(n)]
+        run.wire([], req(items, opt=opt), mx, 'wire:large answer')
+    run.wire_sequence([(req([I_create(names=[2000 + k]) for k in range(70)]), None), (req([I_ro('QUERY')]), None),
+                       (req([I_register(7, names=[2100 + k]) for k in range(65)], ver=(1, 4)), None)], 'wire:sequence:large answers')
     # one connection, several requests: a limit stated by one request must not outlive it
     four = req([I_create(names=[84]), I_create(names=[85]), I_create(names=[86]), I_create(names=[87])])
     for small in [1, 64, 256, 400]:
